@@ -43,9 +43,11 @@ TIMELINES = ["cold_refuse", "latency3", "handshake", "handshake_bytes", "steady"
 
 
 def installation(gen, variant=0):
+    """variant 0: first life of the client (2 ACs, 3 zones); variant 1: what the console
+    describes at re-init: FEWER entities with other names (stale entries must be gone)."""
     if variant == 0:
-        return C.default_installation(gen, 1, (2,))
-    inst = C.default_installation(gen, 2, (1, 2), names=["Alpha", "Beta", "Gamma"])
+        return C.default_installation(gen, 2, (1, 2), names=["Alpha", "Beta", "Gamma"])
+    inst = C.default_installation(gen, 1, (2,), names=["Uno", "Due"])
     inst["acs"][0]["ability"]["name"] = "Other"
     return inst
 
@@ -148,7 +150,7 @@ async def drive(tl, gen, loop, net, log, ctx):
         await asyncio.sleep(8.0)
 
 
-def run_once(gen, tl, trigger, reinit=False, pending=4):
+def run_once(gen, tl, trigger, reinit=False, pending=4, double=False):
     """trigger: None (reference run) | ('iter', k) | ('time', t)."""
     out = {"fired": False}
 
@@ -166,8 +168,12 @@ def run_once(gen, tl, trigger, reinit=False, pending=4):
             try:
                 if "at" in ctx:
                     await ctx["at"].shutdown()
+                    if double:
+                        await ctx["at"].shutdown()
                 elif "sock" in ctx:
                     await ctx["sock"].close()
+                    if double:
+                        await ctx["sock"].close()
                 else:
                     out["nothing_to_shut"] = True
             except Exception as e:
@@ -253,6 +259,7 @@ def run_once(gen, tl, trigger, reinit=False, pending=4):
             r = await H.probe(log, "init", ctx["at"].init())
             out["reinit_ret"] = r if not isinstance(r, Exception) else repr(r)
             await quiesce(loop)
+            out["reinit_requests"] = [k for t, c, k in ctx["world"].console.requests()]
             model = RM.RefModel(gen)
             buf = bytearray()
             for _, _, k, d in log.since(m2):
@@ -312,7 +319,7 @@ def cases(tier, seed):
                 trigs.append(["time", t + 1e-6])
             for i in range(0, len(trigs), 12):
                 yield {"gen": gen, "tl": tl, "trigs": trigs[i:i + 12],
-                       "reinit": (i // 12) % 3 == 0}
+                       "reinit": (i // 12) % 3 != 1, "double": (i // 12) % 4 == 3}
         if tier == "thorough":
             for pending in (1, 2, 7, 10):
                 K, times = reference(gen, "sock_pending")
@@ -389,6 +396,10 @@ def judge(gen, tl, trig, o, reinit):
             v("reinit-after-shutdown-fails", ret=o["reinit_ret"])
         elif o["reinit_diff"]:
             v("reinit-does-not-rebuild-model", diff=o["reinit_diff"])
+        elif o["reinit_requests"][:7] != C.STEPS + ["version_request"] or \
+                len(o["reinit_requests"]) != 7:
+            # the six discovery requests once each, then the first heartbeat
+            v("reinit-does-not-behave-like-a-fresh-object", requests=o["reinit_requests"][:16])
         else:
             obs["reinit_ok"] = 1
     if reinit and "reopen_conns" in o:
@@ -421,7 +432,8 @@ def run_case(case):
     viol, obs = [], {}
     dec = 0
     for trig in case["trigs"]:
-        o = run_once(gen, tl, tuple(trig), case["reinit"], case.get("pending", 4))
+        o = run_once(gen, tl, tuple(trig), case["reinit"], case.get("pending", 4),
+                     case.get("double", False))
         vv, oo = judge(gen, tl, trig, o, case["reinit"])
         viol += vv
         for k, n in oo.items():
